@@ -73,11 +73,37 @@ def replay(r):
 
 def _replay_e2e(r):
     """the same genome text as a real FASTA file, the model's loci and seed through the real extract_matching_loci, judged by
-    a direct re-computation over the text"""
+    a direct re-computation over the text.  With several workers the completion order of the per-chromosome jobs is the
+    scheduler's choice: the run is repeated on a variant whose first chromosome is thousands of times longer (it finishes last)."""
+    W, recs = _genome(r["genome"])
+    variants = [recs]
+    if r.get("n_jobs", 1) not in (None, 1) and len(recs) > 1:
+        variants.append([(c, sq * 6000 if i == 0 else sq) for i, (c, sq) in enumerate(recs)])
+    for k, rc_ in enumerate(variants):
+        for rep in range(1 if k == 0 else 3):
+            if k == 0:
+                bad, detail = _replay_e2e_on(r, W, rc_)
+            else:
+                # joblib runs sequentially inside the (daemonic) worker processes of the harness: use a fresh process
+                import json
+                import subprocess
+                import sys
+                code = ("import sys, json; sys.path[:0] = %r; from checks import C17, common as C; C.real_tangermeme(); "
+                        "r = json.loads(sys.argv[1]); W, recs = C17._genome(r['genome']); "
+                        "recs = [(c, sq * 6000 if i == 0 else sq) for i, (c, sq) in enumerate(recs)]; "
+                        "print('RESULT ' + json.dumps(C17._replay_e2e_on(r, W, recs)))") % ([p_ for p_ in sys.path if p_],)
+                pr = subprocess.run([sys.executable, "-c", code, json.dumps(r)], stdout=subprocess.PIPE, stderr=subprocess.PIPE, text=True, timeout=900)
+                line = [l for l in pr.stdout.splitlines() if l.startswith("RESULT ")]
+                bad, detail = json.loads(line[-1][7:]) if line else (False, "child replay failed: %s" % pr.stderr[-200:])
+            if bad:
+                return bad, detail + (" (first chromosome lengthened %d-fold so that it completes last)" % 6000 if k else "")
+    return False, "ok"
+
+
+def _replay_e2e_on(r, W, recs):
     import pandas
     from fractions import Fraction as Fr
     from tangermeme import match
-    W, recs = _genome(r["genome"])
     gcw, maxn = r.get("gc_bin_width", 0.5), r.get("max_n_perc", 0.25)
     loci = [tuple(l) for l in r["loci_v"]]
     seqs = dict(recs)
@@ -110,7 +136,7 @@ def _replay_e2e(r):
                     continue
                 cnts.append(sum(sig[c][mid - outw // 2:mid + (outw + 1) // 2]))
             thr = float(numpy.quantile(cnts, 0.01)) * r.get("beta", 0.5) if cnts else float("nan")
-        for seed in sorted({r.get("seed", 0), 0, 1, 2, 3}):
+        for seed in sorted({r.get("seed", 0), 0, 1, 2, 3}) if len(recs[0][1]) < 10000 else [r.get("seed", 0)]:
             for nj in (1, 2):
                 try:
                     outs.append((seed, nj, match.extract_matching_loci(df, fa, in_window=W, out_window=r.get("out_window", W), max_n_perc=maxn, gc_bin_width=gcw,
@@ -152,8 +178,9 @@ def _replay_e2e(r):
                         tot = sum(sig[c][t * W + (W - outw) // 2:(t + 1) * W - (W - outw + 1) // 2])
                         if not tot <= thr + 1e-9:
                             overl = touched = True
-                        elif not tot <= thr - 1e-9:
+                        elif not tot <= thr - 1e-9 and tot != thr:
                             touched = True           # borderline in floating point: may or may not be eligible
+                        # (an EXACT tie - integer-valued track, threshold an exactly representable number - is "not above": eligible)
                     elig_hi[k] += not overl
                     elig_lo[k] += not touched
             for c, a, b in rows:
@@ -706,6 +733,8 @@ def configs(tier):
     cf.append(dict(kind="e2e", genome="g2", loci=[("c", "sym"), ("c", 1, 2)], signal=sig3, out_window=1, beta=1.0, max_len=2))
     # wide tiles: demand (3 loci in one tile) exceeds the eligible background, so every tile with N fraction <= 0.1 is returned - and no other
     cf.append(dict(kind="e2e", genome="g4", loci=[("c", "sym"), ("c", 10, 20), ("c", 30, 50), ("c", 60, 70)], max_n_perc=0.1, max_len=3))
+    # two chromosomes, two workers: per-chromosome results must be attributed to their own chromosome whatever the completion order
+    cf.append(dict(kind="e2e", genome="g1", loci=[("c", 9, 11), ("d", 5, 7)], chroms=["c", "d"], n_jobs=2))
     if not q:
         cf.append(dict(kind="e2e", genome="g1", loci=[("c", "sym"), ("d", 5, 7)], chroms=["c", "d"], max_len=5))
         cf.append(dict(kind="e2e", genome="g3", loci=[("c", "sym"), ("c", "sym")], gc_bin_width=0.25, max_len=4))
